@@ -262,7 +262,7 @@ def report_dict(chk):
     return None
 
 
-def rule_report(chk):
+def rule_report(chk, content=True):
     ctx = chk.ctx
     p = ctx.p
     send, cfg, loops, lists = report_loop(chk)
@@ -330,6 +330,8 @@ def rule_report(chk):
         ph = protecting_handler(ctx.cg.ctxmaps[send].get(id(c), []))
         chk.req(ph is not None, "C08.report", "send:report-contained", chk.where(send, c.lineno),
                 good="report logging wrapped in catch-all", fail="a failure while reporting can propagate to the application")
+    if not content:
+        return
     # content of the report
     rep = report_dict(chk)
     chk.need(rep is not None, "report dict not analysable")
@@ -366,6 +368,23 @@ def rule_report(chk):
 
 def _count_avoiding(cfg, src, dsts, weight, avoid_edges):
     return cfg.count_range(src, dsts, weight, avoid_edges=avoid_edges)
+
+
+def rule_report_path(chk):
+    """(used by C02) failure reports are emitted through log_message -- never by invoking a
+    destination or send() directly with a hand-built message -- so they consume a position."""
+    ctx = chk.ctx
+    send, cfg, loops, lists = report_loop(chk)
+    lm = ctx.func("_action", "log_message")
+    chk.need(loops, "report loop over the collected errors not found in send")
+    fsend, fcfg, fhead, var = fanout_loop(chk)
+    for head in loops:
+        region = common.loop_region(cfg, head)
+        calls = [c for n in region for c, m in calls_in_node(n) if lm in ctx.targets(send, c)]
+        direct = [c for n in region for c, m in calls_in_node(n)
+                  if (isinstance(c.func, ast.Attribute) and c.func.attr in ("send", "write")) or (isinstance(c.func, ast.Name) and c.func.id == var)]
+        chk.req(bool(calls) and not direct, "C08.report", "send:report-through-normal-path", chk.where(send, head.lineno),
+                good="reports are emitted only through log_message", fail="the failure report is delivered directly (%s) instead of being logged through log_message: it carries no position of its own" % [unparse(c)[:40] for c in direct])
 
 
 def rule_report_logger(chk):
